@@ -722,6 +722,9 @@ func run[V any](r *engine.Rec, c *cfg[V], maxN int) {
 		if it.HasNext() {
 			return viol(class+" iterator longer than contents", fmt.Sprint(ns))
 		}
+		if why := common.TwoLiveIterators[V](func() age.IteratorLike[V] { return obj.GetIterator() }, ns, true); why != "" {
+			return viol(class+": two iterators over one sequence influence each other", why)
+		}
 		if okBy && !eqSlices(by.AsArray(), bm) {
 			return viol(class+" changes another "+kind+" of the same element type", fmt.Sprintf("the other one: got %v want %v", by.AsArray(), bm))
 		}
